@@ -40,7 +40,7 @@ CHECKS = {
          "The sunrise crate's astronomy is trusted up to the stated sanity relations; tzf-rs polygons up to a 6.5 h plausibility bound.", "DESIGN.md §3 C11"),
  "C12": ("model_checking", "exhaustive enumeration of the Python constructor-argument product (2688 combinations per expression) x expressions x datetimes x methods on the real extension module under CPython, differential against the Rust core evaluating the documented equivalent context",
          "Every constructor combination is executed in CPython and every observed value, zone, None and exception class is compared with the core; also validate/str/repr round trips (C06's Python clause).",
-         "CPython 3.11 + its zoneinfo; nonexistent aware datetimes only checked for panics; one under-documented argument combination accepts two readings. intervals(start, end) is also driven with bounds of mixed awareness.", "DESIGN.md §3 C12"),
+         "CPython 3.11 + its zoneinfo; nonexistent aware datetimes only checked for panics; one under-documented argument combination accepts two readings. intervals(start, end) is also driven with bounds of mixed awareness. Two open known findings: aware datetimes in a skipped hour, and aware datetimes with a fixed-offset tzinfo, are refused with TypeError.", "DESIGN.md §3 C12"),
  "C13": ("model_checking", "bounded exhaustive enumeration of the normalisation family on the real normalize(): idempotence, determinism across clones/reparses/equal spellings, and printability of the normal form",
          "normalize(normalize(e)) == normalize(e) by AST equality for every expression of N, E2, E1 and the corpus; equal ASTs reached through different spellings normalise equally; the normal form round-trips by C06's criterion.",
          "Bounded by the family.", "DESIGN.md §3 C13"),
